@@ -255,6 +255,10 @@ def structured(ctx, ht):
     from ..axes import role_of
     for s in size_slots(ht, 'TRACECOUNT'):
         e = s.value
+        if isinstance(e, ast.Name):
+            d_ = ht.resolver(s)(e.id)
+            if isinstance(d_, ast.IfExp):
+                e = d_          # the value chosen in the arms of an `if` before the store
         if isinstance(e, ast.IfExp):
             ev = RoleEval(P, s.func.module, ht.resolver(s))
             want_p = ev.atom('COUNT[IL]') * ev.atom('COUNT[XL]')
